@@ -5,6 +5,7 @@ Case(i) == [inp |-> i,
             entropy |-> Entropy(i, PlainHex(i.base)),
             pset_index |-> StoredHex(Stored(i, "pset")),
             plain_index |-> PlainHex(i.base),
+            token_both |-> TokenId([i EXCEPT !.amount = "both"], PlainHex(i.base)),
             collides |-> Collides(i)]
 Cases == { Case(i) : i \in Inputs }
 GInit == inp = (CHOOSE i \in Inputs : TRUE) /\ rep = "extracted" /\ idx = "0" /\ ids0 = <<>>
